@@ -1432,3 +1432,86 @@ def truc_rule_replay(ctx, crate):
     ctx.floor(['C20'], 'V-MAP', 4)
     ctx.floor(['C20'], 'V-DELTA', 3)
     ctx.floor(['C20'], 'V-ERR', 2)
+
+
+def fields_touched(crate, b, seen=None, depth=0):
+    """Names of `self` fields (of the generic builder) borrowed or read in a body, its closures
+    and the builder methods it calls on self."""
+    seen = seen if seen is not None else set()
+    if b.key in seen or depth > 4:
+        return set()
+    seen.add(b.key)
+    out = set()
+    ADT = T + 'builder::generic::GenericRecordDefinitionBuilder'
+    def scan_place(pl):
+        for e in pl['p']:
+            if isinstance(e, dict) and e.get('adt') == ADT and 'name' in e:
+                out.add(e['name'])
+    for x in [b] + crate.closures_of(b.path):
+        for _, _, st in x.statements():
+            if st['k'] != 'assign':
+                continue
+            rv = st['rv']
+            if 'place' in rv:
+                scan_place(rv['place'])
+            for k in ('op', 'l', 'r', 'o'):
+                if k in rv and op_place(rv[k]):
+                    scan_place(op_place(rv[k]))
+        for bb, t in x.calls():
+            p = callee_path(t) or ''
+            if p.startswith(GB) and p != b.path:
+                cb = crate.body(p)
+                if cb is not None:
+                    out |= fields_touched(crate, cb, seen, depth + 1)
+    return out
+
+
+def truc_rule_current(ctx, crate):
+    """B-CURRENT (C12): the duplicate-name lookup looks at carried-over data minus pending removals
+    plus pending additions, and cannot answer "absent" before the pending additions were consulted."""
+    for name, need in (('get_current_datum_definition_by_name', {'variants', 'data_to_remove', 'data_to_add', 'datum_definitions'}),
+                       ('get_current_data', {'variants', 'data_to_remove', 'data_to_add'}),
+                       ('has_pending_changes', {'variants', 'data_to_remove', 'data_to_add'})):
+        b = crate.body(GB + name)
+        if b is None:
+            ctx.add(['C12'], 'B-CURRENT', GB + name, 'function not found (anchor lost)', key='anchor|%s' % name)
+            continue
+        got = fields_touched(crate, b)
+        if not need <= got:
+            ctx.add(['C12'], 'B-CURRENT', b.key, '%s does not consult %s (it reads %s): the current variant is "previous minus pending removals plus pending additions"' % (name, sorted(need - got), sorted(got)), key='%s|fields' % name)
+        else:
+            ctx.inst('B-CURRENT', '%s consults %s' % (name, sorted(need)))
+        if name == 'has_pending_changes':
+            continue
+        # explicit "absent" answers: `_0 = None` must come after the pending additions were looked at
+        group = [b] + crate.closures_of(b.path)
+        for x in group:
+            if x is not b:
+                continue
+            dom = x.dominators(unwind=False)
+            add_blocks = set()
+            for bb, blk in enumerate(x.blocks):
+                for st in blk['stmts']:
+                    if st['k'] == 'assign' and 'place' in st['rv'] and any(isinstance(e, dict) and e.get('name') == 'data_to_add' for e in st['rv']['place']['p']):
+                        add_blocks.add(bb)
+                t = blk['term']
+                if t['k'] == 'call' and callee_path(t) == GB + 'get_current_data':
+                    add_blocks.add(bb)
+            if name != 'get_current_datum_definition_by_name':
+                continue
+            # every definition of the result that is not an explicit `Some(..)` may mean "absent"
+            sites = []
+            for bb, si, st in x.statements():
+                if st['k'] == 'assign' and st['place']['l'] == 0 and not st['place']['p']:
+                    if st['rv']['k'] == 'aggregate' and st['rv'].get('adt') == 'core::option::Option' and st['rv'].get('variant') == 'Some':
+                        continue
+                    sites.append((bb, fmt_span(st.get('span'))))
+            for bb, t in x.calls():
+                if t['dest']['l'] == 0 and not t['dest']['p']:
+                    sites.append((bb, fmt_span(t['span'])))
+            for bb, where in sites:
+                if not (dom.get(bb, set()) & add_blocks):
+                    ctx.add(['C12'], 'B-CURRENT', x.key, '%s can answer (possibly "no such datum") at %s on a path that never consulted the pending additions: a name that was removed and added again is reported free' % (name, where), key='%s|early-answer' % name)
+    ctx.floor(['C12'], 'B-CURRENT', 3)
+
+
